@@ -27,46 +27,60 @@ def plot_event(s, schedule, req_xlim=0):
     from job_shop_lib.visualization import plot_gantt_chart
     from job_shop_lib.visualization import _plot_gantt_chart as P
 
+    def read(ax):
+        colours = {}
+
+        def cid(rgba):
+            key = tuple(round(float(c), 4) for c in rgba)
+            return colours.setdefault(key, len(colours) + 1)
+
+        bars = []
+        base, inc = P._BASE_Y_POSITION, P._Y_POSITION_INCREMENT  # pylint: disable=protected-access
+        for coll in ax.collections:
+            if not isinstance(coll, PolyCollection):
+                continue
+            fc = coll.get_facecolor()
+            for k, path in enumerate(coll.get_paths()):
+                v = path.vertices
+                x0, x1 = float(v[:, 0].min()), float(v[:, 0].max())
+                y0 = float(v[:, 1].min())
+                row = (y0 - base) / inc + 1
+                bars.append([model.num(row), model.num(x0), model.num(x1 - x0), cid(fc[min(k, len(fc) - 1)])])
+        legend = []
+        leg = ax.get_legend()
+        handles = getattr(leg, "legend_handles", None) or getattr(leg, "legendHandles", [])
+        for h, txt in zip(handles, leg.get_texts()):
+            label = txt.get_text()
+            job = int(label.split()[-1]) + 1 if label.startswith("Job ") else -1
+            legend.append([job, cid(h.get_facecolor())])
+        lo, hi = ax.get_xlim()
+        ticks = list(ax.get_xticks())
+        return bars, legend, model.num(lo), model.num(hi), model.num(ticks[-1]) if ticks else -1
+
     def go():
         fig, ax = plot_gantt_chart(schedule, xlim=req_xlim or None)
-        try:
-            colours = {}
-
-            def cid(rgba):
-                key = tuple(round(float(c), 4) for c in rgba)
-                return colours.setdefault(key, len(colours) + 1)
-
-            bars = []
-            base, inc = P._BASE_Y_POSITION, P._Y_POSITION_INCREMENT  # pylint: disable=protected-access
-            for coll in ax.collections:
-                if not isinstance(coll, PolyCollection):
-                    continue
-                fc = coll.get_facecolor()
-                for k, path in enumerate(coll.get_paths()):
-                    v = path.vertices
-                    x0, x1 = float(v[:, 0].min()), float(v[:, 0].max())
-                    y0 = float(v[:, 1].min())
-                    row = (y0 - base) / inc + 1
-                    bars.append([model.num(row), model.num(x0), model.num(x1 - x0), cid(fc[min(k, len(fc) - 1)])])
-            legend = []
-            leg = ax.get_legend()
-            handles = getattr(leg, "legend_handles", None) or getattr(leg, "legendHandles", [])
-            for h, txt in zip(handles, leg.get_texts()):
-                label = txt.get_text()
-                job = int(label.split()[-1]) + 1 if label.startswith("Job ") else -1
-                legend.append([job, cid(h.get_facecolor())])
-            lo, hi = ax.get_xlim()
-            ticks = list(ax.get_xticks())
-            return bars, legend, model.num(lo), model.num(hi), model.num(ticks[-1]) if ticks else -1
-        finally:
-            plt.close(fig)
+        now = read(ax)
+        # the chart drawn BEFORE this one (kept open until now) still shows what it showed
+        stable = True
+        if _EARLIER:
+            fig0, ax0, was = _EARLIER[0]
+            try:
+                stable = (fig0 is not fig) and read(ax0) == was
+            finally:
+                plt.close(fig0)
+        _EARLIER[:] = [(fig, ax, now)]
+        return now + (stable,)
 
     out, r = _outcome(go)
     ev = {"a": "Plot", "out": out, "sched": model.project_schedule(schedule), "req_xlim": req_xlim,
-          "bars": [], "legend": [], "xlim_lo": 0, "xlim_hi": 0, "last_tick": 0}
+          "bars": [], "legend": [], "xlim_lo": 0, "xlim_hi": 0, "last_tick": 0, "earlier_stable": True}
     if out == "ok":
-        ev.update({"bars": r[0], "legend": r[1], "xlim_lo": r[2], "xlim_hi": r[3], "last_tick": r[4]})
+        ev.update({"bars": r[0], "legend": r[1], "xlim_lo": r[2], "xlim_hi": r[3], "last_tick": r[4],
+                   "earlier_stable": bool(r[5])})
     s._ev(ev)
+
+
+_EARLIER = []       # [(figure, axes, what was read from it)] of the chart drawn before the current one
 
 
 KBITS = 12
